@@ -15,9 +15,9 @@ import (
 // mapRangeExempt: reviewed exemptions, one named construct each, with reason.
 var mapRangeExempt = map[string]string{
 	"pkg/parser.(*parser).calledBuiltinFuncs#maprange[1]": "result (Program.CalledBuiltinFuncs) is a UI hint list consumed as a set by the web front end; not among C08's observables",
-	"pkg/evaluator.(*Evaluator).evalProgram#maprange[1]":   "EventHandlerNames is used only to register handlers with the platform (set semantics); not among C08's observables",
-	"pkg/wasm.prepareUI#maprange[1]":                       "names are passed to jsPrepareUI which treats them as a set of UI features",
-	"pkg/wasm.(*jsPlatform).Font#maprange[1]":              "the JSON text is consumed by JSON.parse and keyed property lookups in frontend/play/index.js (font); key order is unobservable at the host",
+	"pkg/evaluator.(*Evaluator).evalProgram#maprange[1]":  "EventHandlerNames is used only to register handlers with the platform (set semantics); not among C08's observables",
+	"pkg/wasm.prepareUI#maprange[1]":                      "names are passed to jsPrepareUI which treats them as a set of UI features",
+	"pkg/wasm.(*jsPlatform).Font#maprange[1]":             "the JSON text is consumed by JSON.parse and keyed property lookups in frontend/play/index.js (font); key order is unobservable at the host",
 }
 
 var mapRangePkgs = []string{"pkg/lexer", "pkg/parser", "pkg/evaluator", "pkg/bytecode", "pkg/cli", "pkg/cli/svg", "pkg/md", ""}
